@@ -607,17 +607,23 @@ fn headers_inconsistent(cx: &mut Ctx) {
 			}
 		}
 		if count == 0 && present > 0 {
-			let delivered: Vec<&String> = r.events.iter().filter(|e| e.starts_with("headers:")).collect();
-			cx.out.raw(&format!(
-				"#STAT Headers count=0 with {} items: events {:?} end {} (items_left wraps: remaining = 2^64 - k)",
-				present,
-				delivered.iter().map(|e| e.split(':').take(3).collect::<Vec<_>>().join(":")).collect::<Vec<_>>(),
-				r.end
-			));
+			// repaired in /repo 8eb131841: refused before any item is decoded or delivered
+			if !r.events.is_empty() || r.end != "BadMessage" {
+				cx.fails += 1;
+				cx.out.raw(&format!("#ORACLE-FAIL C19 regression of repaired defect headers-count-zero-wrap: count 0 with {} items gave events {:?} end {}", present, r.events.iter().map(|e| e.chars().take(40).collect::<String>()).collect::<Vec<_>>(), r.end));
+			}
+		}
+		// no delivered batch may carry a wrapped `remaining`
+		for e in r.events.iter().filter(|e| e.starts_with("headers:")) {
+			let rem: u64 = e.split(':').nth(2).and_then(|x| x.parse().ok()).unwrap_or(u64::MAX);
+			if rem > 65535 {
+				cx.fails += 1;
+				cx.out.raw(&format!("#ORACLE-FAIL C19 a header batch with remaining = {} was delivered (count {} present {}): stream {}", rem, count, present, hex(&w).chars().take(400).collect::<String>()));
+			}
 		}
 		emit_run(cx, ver, &[w], &r, false);
 	}
-	// count = 0 with 33 items: a full batch of 32 is DELIVERED (remaining = 2^64-32) before the refusal
+	// count = 0 with 33 items: before 8eb131841 a full batch of 32 was delivered (remaining = 2^64-32)
 	let many: Vec<Vec<u8>> = header_pool(cx, 33).iter().map(|h| sv(h, ver)).collect();
 	let mut body = 0u16.to_be_bytes().to_vec();
 	for it in &many {
@@ -627,11 +633,14 @@ fn headers_inconsistent(cx: &mut Ctx) {
 	w.extend_from_slice(&body);
 	let r = run_codec(ver, &[w.clone()], &[0]);
 	let batches: Vec<String> = r.events.iter().filter(|e| e.starts_with("headers:")).map(|e| e.split(':').take(3).collect::<Vec<_>>().join(":")).collect();
-	if !batches.is_empty() {
+	if !batches.is_empty() || r.end != "BadMessage" {
+		cx.fails += 1;
 		cx.out.raw(&format!(
-			"#KNOWN-PROBE C19 headers-count-zero-wrap a Headers frame announcing 0 items but carrying 33 delivers {:?} to the handler (items_left wraps to 2^64-1 in release) before it is refused with {}",
+			"#ORACLE-FAIL C19 regression of repaired defect headers-count-zero-wrap: a Headers frame announcing 0 items but carrying 33 delivered {:?} and ended with {}",
 			batches, r.end
 		));
+	} else {
+		cx.out.raw("#STAT regression probe headers-count-zero-wrap: repaired behaviour confirmed (count 0 with 33 items: no batch delivered, BadMessage)");
 	}
 	emit_run(cx, ver, &[w], &r, false);
 }
